@@ -48,6 +48,10 @@ def run(ctx):
     # ... and every cell of every line goes through the gate (no record is skipped as a whole on the category of one of its cells)
     ctx.alias = {'R1': 'R8'}
     c06.r1b_body_loop(ctx)
+    # ... and every note of a chord is written, whatever is left of it ("sub-parts of each note are deleted", not the note)
+    from . import c04
+    ctx.alias = {'R6': 'R9'}
+    c04.r6_chords(ctx)
     ctx.alias = {}
 
 
